@@ -88,6 +88,26 @@
  "native": false
 }
 */
+/* VERIF-UNIT
+{
+ "name": "inline_data_convert_dir",
+ "props": ["C06"],
+ "level": "U/iter",
+ "tier": "wip",
+ "harness": "h_inl_convert_dir",
+ "defines": ["EXT2_CUSTOM_MEMORY_ROUTINES", "INL_CAP=1100"],
+ "sources": ["lib/ext2fs/dir_iterate.c"],
+ "loop_contracts": true,
+ "unwind": 14,
+ "unwind_reason": "the entry walk of ext2fs_inline_data_convert_dir is cut by its in-place loop contract (named anchor VERIF_INV_INLINE_CONVERT_DIR_WALK, hooks-pending/c06b.diff); the bound serves library loops",
+ "functions": ["lib/ext2fs/inline_data.c:ext2fs_inline_data_convert_dir"],
+ "assumes": ["call site ext2fs_inline_data_dir_expand: bbuf = zeroed block of fs->blocksize bytes, ibuf = the inline data, size = 60 + EA size bytes exactly, contents arbitrary; blocksize 1024 (the function uses it only as a number), EA size up to 1100 (more than a block)",
+	     "ext2fs_initialize_dirent_tail (csum.c) is a stub that checks it is handed the last 12 bytes of the block",
+	     "needs the VERIF_LOOP hook hooks-pending/c06b.diff",
+	     "FAILS on the unchanged tree: FINDING findings/C06_inline_expand_oversize (memcpy of size-4 bytes to bbuf+24 without a bound; entry walk reads headers past the data and never ends on rec_len 0); green with its proposed-fix.patch"],
+ "native": false
+}
+*/
 #include "verif.h"
 #include "config.h"
 #include <stdio.h>
@@ -136,6 +156,19 @@ static errcode_t ext2fs_inline_data_file_expand(ext2_filsys fs, ext2_ino_t ino, 
 	ENSURES(g_exp_calls == OLD(g_exp_calls) + 1 && RET == IN.exp_ret);
 #endif
 
+#if defined(VERIF_UNIT_inline_data_convert_dir)
+/*
+ * loop contract of the entry walk (do { } while (offset < size)): the cursor stays inside the inline data, which fits
+ * the block; an entry header (8 bytes) is only read when it lies inside; progress by at least 8 bytes per round.
+ */
+#define VERIF_INV_INLINE_CONVERT_DIR_WALK \
+	__CPROVER_assigns(dir, dir2, retval, rec_len, offset) \
+	__CPROVER_loop_invariant(offset >= 24 && offset < size && size <= (int)fs->blocksize - csum_size) \
+	__CPROVER_loop_invariant(__CPROVER_same_object(dir, bbuf) && (char *)dir == bbuf + offset) \
+	__CPROVER_decreases(size - offset)
+unsigned int g_tail_calls;
+#endif
+
 #include "lib/ext2fs/inline_data.c"
 #include "inline_common.h"
 
@@ -156,7 +189,7 @@ errcode_t ext2fs_write_inode(ext2_filsys fs, ext2_ino_t ino, struct ext2_inode *
 	g_wr_iblock0 = inode->i_block[0];
 	return IN.wr_err ? EXT2_ET_SHORT_WRITE : 0;
 }
-#if !defined(VERIF_UNIT_inline_data_dir_iterate)
+#if !defined(VERIF_UNIT_inline_data_dir_iterate) && !defined(VERIF_UNIT_inline_data_convert_dir)
 /* not reachable from the functions of the other units; keeps the link closed */
 errcode_t ext2fs_get_rec_len(ext2_filsys fs, struct ext2_dir_entry *dirent, unsigned int *rec_len) { CHECK(0, "unreachable"); return 0; }
 errcode_t ext2fs_set_rec_len(ext2_filsys fs, unsigned int len, struct ext2_dir_entry *dirent) { CHECK(0, "unreachable"); return 0; }
@@ -328,6 +361,48 @@ void h_inl_expand(void)
 		if (IN.ea_size > 65536 && IN.xget_sel == 0) REACH("huge EA reaches the back end");
 		REACH("back end called");
 	}
+	REACH("end");
+#endif
+}
+
+/* ------------------------------------------------------------------ convert_dir */
+#if defined(VERIF_UNIT_inline_data_convert_dir)
+static char *g_bbuf;
+static char BBUF[1024];
+void ext2fs_initialize_dirent_tail(ext2_filsys fs, struct ext2_dir_entry_tail *t)
+{
+	g_tail_calls++;
+	CHECK((char *)t == g_bbuf + fs->blocksize - 12, "the checksum tail is the last 12 bytes of the block");
+	memset(t, 0, sizeof(*t));
+}
+#endif
+void h_inl_convert_dir(void)
+{
+#if defined(VERIF_UNIT_inline_data_convert_dir)
+	LOAD_IN();
+	setup();
+	g_tail_calls = 0;
+	FS.blocksize = 1024;
+	if (IN.pass_inode)
+		SB.s_feature_ro_compat |= EXT4_FEATURE_RO_COMPAT_METADATA_CSUM;
+	if (IN.want_size)
+		SB.s_feature_incompat |= EXT2_FEATURE_INCOMPAT_FILETYPE;
+	int size = 60 + (int) IN.ea_size;
+	char *bbuf, *ibuf = malloc(size);		/* exactly the inline data */
+	bbuf = BBUF;				/* one block, zeroed (ext2fs_get_memzero at the call site) */
+	memset(BBUF, 0, 1024);
+	g_bbuf = bbuf;
+	unsigned int parent = *(unsigned int *) ibuf;
+	errcode_t r = ext2fs_inline_data_convert_dir(&FS, IN.ino, bbuf, ibuf, size);
+	if (r == 0) {
+		struct ext2_dir_entry *d0 = (struct ext2_dir_entry *) bbuf, *d1 = (struct ext2_dir_entry *) (bbuf + 12);
+		CHECK(d0->inode == IN.ino && d0->rec_len == 12 && (d0->name_len & 0xff) == 1 && d0->name[0] == '.', "block starts with '.' -> the directory itself");
+		CHECK(d1->inode == parent && d1->rec_len == 12 && (d1->name_len & 0xff) == 2 && d1->name[0] == '.' && d1->name[1] == '.', "then '..' -> the parent stored in i_block[0]");
+		CHECK(g_tail_calls == (IN.pass_inode ? 1u : 0u), "checksum tail iff metadata_csum");
+		CHECK((unsigned int) size + 20 <= 1024 - (IN.pass_inode ? 12u : 0u), "accepted only if the entries fit the block");
+		REACH("converted");
+	}
+	if (IN.ea_size > 1024) REACH("inline data bigger than a block");
 	REACH("end");
 #endif
 }
